@@ -24,7 +24,10 @@ THEOREMS = ["XV.Props.C06." + t for t in (
     "unknown_implies_undeclared", "pop_restores", "startTag_sees_whole_tag", "decl_after_use", "decl_order_irrelevant",
     "prefix_events_scoped", "prefix_events_dyck", "reader_stack_discipline", "sax2_events_eq_spec",
     "dom_lookup_eq_inScope", "lookupPrefix_sound", "lookupPrefix_sound_any_tree", "isDefaultNamespace_eq_inScope",
-    "collision_detected_iff", "wf_mapPrefix_eq_inScope_history", "illegal_bindings_rejected")]
+    "collision_detected_iff", "wf_mapPrefix_eq_inScope_history", "illegal_bindings_rejected",
+    "lookupPrefix_complete", "lookupPrefix_complete_any_tree", "build_names", "built_chain_eq_spec",
+    "dom_lookup_on_built_nodes", "dup_check_threshold_independent", "start_tag_error_iff",
+    "scan_errors_iff_not_wellformed", "collision_detected_iff_spec")]
 RULE = ("stack histories: random addLevel/popTop/addPrefix/addGlobalPrefix/mapPrefixToURI/reset sequences in three shapes "
         "(deep > 32 levels, wide > 16 prefixes on a level, mixed); a history is non-trivial when it contains a lookup "
         "answered from below the top level or after a pop, distinct by text. Documents: random trees with shadowing, "
